@@ -82,6 +82,34 @@ def block(path, anchor, trailing=';', open_at_bol=False, which=0, count=1):
     a, bb = _note(path, src, start, end)
     return f"// ---- sliced verbatim from {path}:{a}-{bb}\n" + src[start:end] + "\n"
 
+_DEF_RE = re.compile(r'^(?:static\s+|inline\s+)*(?:[A-Za-z_][\w:<>]*[\s\*&]+)+([A-Za-z_]\w*)\s*\(([^;{}()]|\([^()]*\))*\)\s*\{', re.M)
+def local_helpers(path, text, exclude=()):
+    """R-HELPERS: free functions DEFINED at file scope in `path` that the sliced text CALLS but does not contain are pulled in
+    verbatim (transitively), so that moving statements of a sliced function into a new local helper keeps the unit complete.
+    `exclude`: names deliberately provided elsewhere (contract stubs, oracles, functions sliced separately)."""
+    src = _read(path)
+    defs = {}
+    for m in _DEF_RE.finditer(src):
+        name = m.group(1)
+        if name in ('if', 'for', 'while', 'switch', 'return') or '::' in src[m.start():m.end()].split('(')[0]: continue
+        defs.setdefault(name, []).append(m)
+    out = ''; have = text
+    changed = True
+    while changed:
+        changed = False
+        for name, ms in defs.items():
+            if name in exclude or len(ms) != 1: continue
+            if not re.search(r'\b' + name + r'\s*\(', have): continue
+            m = ms[0]
+            # already in the unit (same signature line present)?
+            sig = src[m.start():src.index('(', m.start())].strip()
+            if re.search(r'^\s*' + re.escape(sig) + r'\s*\(', have, re.M): continue
+            b = src.index('{', m.start()); end = _scan(src, b)
+            a, bb = _note(path, src, m.start(), end)
+            piece = f"// ---- sliced verbatim from {path}:{a}-{bb} (R-HELPERS: local helper called by sliced code)\n" + src[m.start():end] + "\n"
+            out += piece; have += piece; changed = True
+    return out
+
 def body_of(path, anchor, **kw):
     """like block() but returns (header_text, body_text_with_braces)"""
     t = block(path, anchor, trailing=None, **kw)
@@ -279,3 +307,26 @@ def lint_ternaries(text, what):
         bad.append((mid + ' : ' + last)[:80])
     if bad:
         raise SliceError(f"lint_ternaries({what}): conditional expression(s) whose last operand is narrower than the middle one: {bad[:3]}")
+
+_CONSTDEF_RE = re.compile(r'^([ \t]*)static (constexpr|const) ((?:unsigned |signed )?[A-Za-z_][\w:]*(?: int| long)?) (\w+)\s*(=\s*([^;{}\n]+)|\{([^;{}\n]+)\});[ \t]*(//[^\n]*)?$', re.M)
+def r_constorder(text):
+    """R-CONSTORDER (front-end defect 4, DESIGN.md section 9): CBMC runs the initialisers of static objects in symbol-name order, so
+    `static constexpr size_t MAX = BASE + NODE * COUNT;` reads BASE / NODE / COUNT before they are initialised (as 0).  Every
+    integral static constant whose initialiser names another such constant gets the named constants replaced by their own
+    (parenthesised) initialisers, recursively, so that only literals and enumerators remain.  Returns (text, number rewritten)."""
+    defs = {}
+    for m in _CONSTDEF_RE.finditer(text):
+        defs[m.group(4)] = (m.group(6) or m.group(7)).strip()
+    def expand(expr, depth=0):
+        if depth > 8: raise SliceError("R-CONSTORDER: cyclic constant definition")
+        def sub(mm):
+            nm = mm.group(0)
+            return '(' + expand(defs[nm], depth + 1) + ')' if nm in defs else nm
+        return re.sub(r'\b[A-Za-z_]\w*\b', sub, expr)
+    count = [0]
+    def fix(m):
+        expr = (m.group(6) or m.group(7)).strip()
+        if not any(re.search(r'\b' + re.escape(n) + r'\b', expr) for n in defs if n != m.group(4)): return m.group(0)
+        count[0] += 1
+        return f"{m.group(1)}static {m.group(2)} {m.group(3)} {m.group(4)} = {expand(expr)};   /* R-CONSTORDER: was `{expr}` */"
+    return _CONSTDEF_RE.sub(fix, text), count[0]
